@@ -63,7 +63,8 @@ Fixpoint corresponds (n : net) (g : graces) (ops : list top) (obs : list tstep) 
 Definition routed_exactly (c : tctx) (n : net) : bool :=
   if negb (tc_refs c) || strategy_empty (tc_strategy c) then true else
   (match n_route n with RSet s => strategy_eqb s (tc_strategy c) | RNone => strategy_eqb (tc_strategy c) init_strategy end) &&
-  opt_eqb String.eqb (n_canary_svc n) (Some (tc_canary_rev c)) && opt_eqb String.eqb (n_stable_sel n) (Some (tc_stable_rev c)).
+  (* without a generated canary Service the route points at the stable Service and nothing is pinned *)
+  (tc_only_traffic c || (opt_eqb String.eqb (n_canary_svc n) (Some (tc_canary_rev c)) && opt_eqb String.eqb (n_stable_sel n) (Some (tc_stable_rev c)))).
 (* C04: a call never writes a route while the canary Service is missing or selects something else, and never deletes the
    canary Service while a route still points at it *)
 Definition is_route_write (s : string) : bool := String.eqb s "create Ingress web-canary" || String.eqb s "patch Ingress web-canary".
@@ -119,9 +120,12 @@ Fixpoint clauses (n : net) (ops : list top) (obs : list tstep) : bool * bool * b
       match o with
       | TCall k c =>
         ((match k with KDo => if ts_ok s && negb (ts_err s) then routed_exactly c (ts_net s) else true | _ => true end),
-         route_write_safe n c k s &&
-         (* RouteAllTrafficToNewVersion and RemoveCanaryService rely on their callers' ordering; the others are safe from any state *)
-         (match k with KRouteNew | KRemoveCanary => true | _ => writes_never_route_into_void n (ts_writes s) end),
+         (tc_only_traffic c ||
+          (route_write_safe n c k s &&
+           (* RouteAllTrafficToNewVersion and RemoveCanaryService rely on their callers' ordering; the others are safe from any state *)
+           (match k with KRouteNew | KRemoveCanary => true | _ => writes_never_route_into_void n (ts_writes s) end))) &&
+         (* the stable Service -- which every route ends at when no canary Service is generated -- is never deleted by anything *)
+         negb (existsb (String.eqb "delete Service svc") (ts_writes s)),
          (match k with KFinalising | KRemoveCanary => true | _ => negb (existsb (String.eqb "delete Service svc-canary") (ts_writes s)) end))
       | _ => (true, true, true)
       end in
